@@ -138,11 +138,14 @@ def array_ufunc(ufunc, method, inputs, kwargs):
         else:
             shape = [len(layout)]
             node = layout
+            length = len(layout)
             while isinstance(node, ak.layout.RegularArray):
                 shape.append(node.size)
+                length = length * node.size
                 node = node.content
             if node.format.upper().startswith("M"):
                 nparray = ak.nplike.of(node).asarray(node.view_int64).view(node.format)
+                nparray = nparray[:length]
                 nparray = nparray.reshape(tuple(shape) + nparray.shape[1:])
                 return ak.layout.NumpyArray(
                     nparray,
@@ -151,6 +154,7 @@ def array_ufunc(ufunc, method, inputs, kwargs):
                 )
             else:
                 nparray = ak.nplike.of(node).asarray(node)
+                nparray = nparray[:length]
                 nparray = nparray.reshape(tuple(shape) + nparray.shape[1:])
                 return ak.layout.NumpyArray(
                     nparray,
